@@ -25,12 +25,12 @@ PRIV = ['_p', '_q']
 PROBE = PUB + ['id', 'ids', 'zz']
 
 
-def gen_layer(rnd, fresh, optional_marks):
+def gen_layer(rnd, fresh, optional_marks, extra_args=()):
     nparams = rnd.choice([0, 0, 1, 2])
     params = {p: [fresh(), rnd.sample(PUB, rnd.randint(0, 2))] for p in PRIV[:nparams]}
     defs = {}
     for o in rnd.sample(PUB, rnd.randint(0, 3)):
-        defs[o] = [fresh(), rnd.sample(PUB + list(params), rnd.randint(0, 3))]
+        defs[o] = [fresh(), rnd.sample(PUB + list(params) + list(extra_args), rnd.randint(0, 3))]
     kind = rnd.choice(['list', 'list', 'all', 'exclude'])
     if kind == 'list':
         inh = [n for n in rnd.sample(PUB + ['ids'], rnd.randint(0, 3)) if n not in defs]
@@ -39,7 +39,12 @@ def gen_layer(rnd, fresh, optional_marks):
     else:
         inh = {'exclude': rnd.sample(PUB, rnd.randint(1, 2))}
     opt = sorted(o for o in defs if optional_marks and rnd.random() < 0.45)
-    return {'t': 'transform', 'fields': defs, 'params': params, 'inherit': inh, 'optional': opt}
+    # optional fields that reach the upstream only through a private parameter (a used parameter is a required user)
+    for o in opt:
+        if params and rnd.random() < 0.5:
+            defs[o][1] = [rnd.choice(sorted(params))]
+    metas = sorted(o for o in defs if not defs[o][1] and rnd.random() < 0.15)
+    return {'t': 'transform', 'fields': defs, 'params': params, 'inherit': inh, 'optional': opt, 'meta': metas}
 
 
 def gen_stack(rnd, optional_marks):
@@ -54,10 +59,43 @@ def gen_stack(rnd, optional_marks):
     for _ in range(rnd.randint(1, 4)):
         if items and rnd.random() < 0.15:
             items.append({'t': 'ram', 'names': None if rnd.random() < 0.5 else rnd.sample(PUB, rnd.randint(1, 3)), 'size': None})
+        elif rnd.random() < 0.12:
+            names = rnd.sample(PUB, rnd.randint(1, 3))          # keyword order as drawn, deliberately not sorted
+            items.append({'t': 'apply', 'fields': {nm: fresh() for nm in names}})
         else:
-            items.append(gen_layer(rnd, fresh, optional_marks))
+            items.append(gen_layer(rnd, fresh, optional_marks, ('ids', 'id') if items and items[0]['t'] == 'src' else ()))
     if items[0]['t'] == 'ram':
         items = items[1:] or [gen_layer(rnd, fresh, optional_marks)]
+    return items
+
+
+def gen_dataset_stack(rnd):
+    """a real dataset (iterable ids) with context-dependent layers: only the bracketings are compared, not the model"""
+    n = [100]
+
+    def fresh():
+        n[0] += 1
+        return f's{n[0] % 150:03d}'
+    fields = rnd.sample(PUB, rnd.randint(2, 3))
+    items = [{'t': 'source', 'ids': ['i1', 'i2', 'i3', 'i4'], 'fields': {f: fresh() for f in fields}}]
+    import zlib
+    # the predicate depends on the whole value it is given, not just on the id inside it
+    sympool.TABLE['t005'] = lambda x: zlib.crc32(str(x).encode()) % 3 != 0
+    for _ in range(rnd.randint(3, 5)):
+        r = rnd.random()
+        f = rnd.choice(fields)
+        if r < 0.35:
+            # mostly on the field the previous transform defines, so that (transform >> filter) also builds on its own
+            prev = items[-1]
+            if prev['t'] == 'transform' and rnd.random() < 0.8:
+                f = sorted(prev['fields'])[0]
+            items.append({'t': 'filter', 'pred': ['t005', [f]]})
+        elif r < 0.4:
+            items.append({'t': 'checkids'})
+        elif r < 0.55:
+            items.append({'t': 'ram', 'names': None, 'size': None})
+        else:
+            items.append({'t': 'transform', 'fields': {f: [fresh(), [f]]}, 'params': {}, 'inherit': True, 'optional': [], 'meta': []})
     return items
 
 
@@ -77,7 +115,15 @@ def observe(layer):
         msg = str(e)
         m = re.match(r"The output '([^']+)'", msg)
         seg = msg.split('unreachable inputs:', 1)[1].split(', some of which', 1)[0]
-        return {'deperr': {'field': m.group(1), 'missing': sorted(set(re.findall(r"'([^']+)'(?: \(layer|,|$)", seg)) or set(re.findall(r"'([^']+)'", seg)))}}
+        second = []
+        for again in (lambda: dir(layer), lambda: layer._compile('a'), lambda: layer._compile('zz')):
+            try:
+                again()
+                second.append('ok')
+            except BaseException as e2:  # noqa
+                second.append(type(e2).__name__)
+        return {'deperr': {'field': m.group(1), 'missing': sorted(set(re.findall(r"'([^']+)'(?: \(layer|,|$)", seg)) or set(re.findall(r"'([^']+)'", seg)))},
+                'second_look': second}
     rows = {}
     for name in PROBE:
         try:
@@ -97,7 +143,7 @@ def observe(layer):
             rows[name] = {'virtual': True}
         else:
             rows[name] = {'sig': sig, 'val': val}
-    return {'listed': listed, 'rows': rows}
+    return {'listed': listed, 'rows': rows, 'properties': sorted(getattr(layer, '_properties', ()))}
 
 
 def brackets(objs, rnd):
@@ -110,12 +156,25 @@ def brackets(objs, rnd):
         return r
     out.append(('rshift', lambda: rshift(objs)))
     out.append(('chain', lambda: Chain(*objs)))
+    def inner(mk):
+        """a nested Chain has to be constructible on its own; if it is not, this is not a bracketing of the sequence"""
+        try:
+            return mk()
+        except BaseException:  # noqa
+            return None
     if len(objs) >= 3:
         k = rnd.randint(1, len(objs) - 2)
         out.append(('left-nested', lambda: Chain(Chain(*objs[:k + 1]), *objs[k + 1:])))
-        out.append(('right-nested', lambda: Chain(*objs[:k], Chain(*objs[k:])) if k >= 1 and hasattr(objs[k], '_container') else Chain(*objs)))
+        if hasattr(objs[k], '_container'):
+            sub = inner(lambda: Chain(*objs[k:]))
+            if sub is not None:
+                out.append(('right-nested', lambda sub=sub: Chain(*objs[:k], sub)))
         out.append(('lazy-tail', lambda: Chain(objs[0], LazyChain(*objs[1:]))))
         out.append(('lazy-middle', lambda: Chain(*objs[:k], LazyChain(*objs[k:]))))
+    if len(objs) >= 4 and hasattr(objs[1], '_container'):
+        sub = inner(lambda: Chain(Chain(*objs[1:3]), *objs[3:]))
+        if sub is not None:
+            out.append(('deep-nested', lambda sub=sub: Chain(objs[0], sub)))
     return out
 
 
@@ -132,7 +191,8 @@ def main():
     tries = 0
     while len(cases) < a.n and tries < 20 * a.n:
         tries += 1
-        items = gen_stack(rnd, a.optional)
+        unmodelled = a.brackets and rnd.random() < 0.3
+        items = gen_dataset_stack(rnd) if unmodelled else gen_stack(rnd, a.optional)
         try:
             objs = [build_item(d) for d in items]
         except (GraphError, TypeError, ValueError):
@@ -150,7 +210,7 @@ def main():
             obs = observe(layer)
         except BaseException as e:  # noqa
             obs = {'error': f'{type(e).__name__}: {e}'[:200]}
-        case = {'items': items, 'obs': obs, 'reuse': reuse}
+        case = {'items': items, 'obs': obs, 'reuse': reuse, 'unmodelled': bool(unmodelled)}
         if a.brackets:
             before = [observe(o) if hasattr(o, '_compile') else None for o in objs]
             vs = []
